@@ -3,6 +3,7 @@
   per-key tallies (used by Props/C08).
 -/
 import PgVerif.Proofs.ToastRel
+import PgVerif.Proofs.KeySort
 namespace PgVerif.Proofs.Toast
 open PgVerif PgVerif.Model PgVerif.Model.Toast PgVerif.Spec PgVerif.Spec.Toast PgVerif.Proofs
 set_option linter.unusedVariables false
@@ -111,6 +112,13 @@ theorem foldl_upsert_inv {α β} (key : α → Nat) (S : List α → β) (ins : 
 theorem mapInv_nil {α β} (key : α → Nat) (S : List α → β) : MapInv key S [] ([] : List α) :=
   ⟨by simp, by simp, by simp⟩
 
+/-- the invariant speaks about the map as a set of entries: it survives any rearrangement -/
+theorem MapInv.perm {α β} {key : α → Nat} {S : List α → β} {m m' : List (Nat × β)} {xs : List α}
+    (h : MapInv key S m xs) (hp : m'.Perm m) : MapInv key S m' xs :=
+  ⟨((hp.map (·.1)).pairwise_iff (fun {a b} (hab : a ≠ b) => fun e => hab e.symm)).mpr h.distinct,
+   fun kv hkv => h.entries kv (hp.subset hkv),
+   fun x hx => by obtain ⟨kv, hkv, e⟩ := h.present x hx; exact ⟨kv, hp.symm.subset hkv, e⟩⟩
+
 /-! ### the two maps of GetTOASTVerboseInfo -/
 
 theorem groupInsert_eq (m : List (Nat × List Chunk)) (c : Chunk) :
@@ -141,10 +149,10 @@ end PgVerif.Proofs.Toast
 namespace PgVerif.Proofs.Toast
 open PgVerif PgVerif.Model PgVerif.Model.Toast PgVerif.Spec PgVerif.Spec.Toast PgVerif.Proofs
 
-/-- What a correct per-table report says about a (non-empty) list of live rows — an order-insensitive
-characterisation: the scalar tallies; exactly one entry per distinct chunk id, carrying that value's chunk count
-and byte total; the maximum of the chunk counts; and a distribution map that holds, under each occurring chunk
-count, the number of values with that count. -/
+/-- What a correct per-table report says about a (non-empty) list of live rows: the scalar tallies; exactly one entry
+per distinct chunk id, carrying that value's chunk count and byte total, the entries in ascending chunk id order (which
+fixes the list `values` completely: `StatsOK.values_unique`); the maximum of the chunk counts; and a distribution map
+that holds, under each occurring chunk count, the number of values with that count (a Go map: no order). -/
 structure StatsOK (relid : Nat) (rows : List Row) (i : VerboseInfo) : Prop where
   relid : i.toastRelID = relid
   totalChunks : i.totalChunks = rows.length
@@ -152,6 +160,7 @@ structure StatsOK (relid : Nat) (rows : List Row) (i : VerboseInfo) : Prop where
   avg : i.avgNum = (rows.map (·.data.length)).sum ∧ i.avgDen = rows.length
   unique : i.uniqueValues = i.values.length
   valuesDistinct : (i.values.map (·.chunkID)).Pairwise (· ≠ ·)
+  valuesSorted : (i.values.map (·.chunkID)).Pairwise (· < ·)
   valuesTally : ∀ x ∈ i.values, x.numChunks = (rows.filter (·.id == x.chunkID)).length ∧ x.numChunks ≠ 0 ∧
     x.totalSize = ((rows.filter (·.id == x.chunkID)).map (·.data.length)).sum
   valuesAll : ∀ r ∈ rows, ∃ x ∈ i.values, x.chunkID = r.id
@@ -188,13 +197,22 @@ theorem filter_toChunk (rows : List Row) (k : Nat) :
     (rows.map toChunk).filter (fun c => c.id == k) = (rows.filter (fun r => r.id == k)).map toChunk := by
   rw [List.filter_map]; rfl
 
-theorem verboseInfo_rows (relid : Nat) (rows : List Row) (hne : rows ≠ []) :
-    StatsOK relid rows (buildInfo relid (rows.map toChunk)) := by
-  unfold buildInfo
-  have G := groups_inv (rows.map toChunk)
+theorem verboseInfo_rows_with (π : GroupOrder) (hπ : ∀ l, (π l).Perm l) (relid : Nat) (rows : List Row) (hne : rows ≠ []) :
+    StatsOK relid rows (buildInfoWith π relid (rows.map toChunk)) := by
+  unfold buildInfoWith
+  dsimp only
+  have G0 := groups_inv (rows.map toChunk)
+  have hperm : (keySort (fun g : Nat × List Chunk => g.1) (π ((rows.map toChunk).foldl groupInsert []))).Perm
+      ((rows.map toChunk).foldl groupInsert []) := (KeySort.keySort_perm _ _).trans (hπ _)
+  have G := G0.perm hperm
+  have hstrict : (keySort (fun g : Nat × List Chunk => g.1) (π ((rows.map toChunk).foldl groupInsert []))).Pairwise
+      (fun x y => x.1 < y.1) :=
+    KeySort.keySort_strict _ _ (KeySort.DistinctKeys.perm (hπ _).symm G0.distinct)
+  have hlen := hperm.length_eq
+  generalize keySort (fun g : Nat × List Chunk => g.1) (π ((rows.map toChunk).foldl groupInsert [])) = gs at G hstrict hlen ⊢
   have hsum : ((rows.map toChunk).map (·.data.length)).sum = (rows.map (·.data.length)).sum := by
     simp [List.map_map, Function.comp_def, toChunk]
-  have hvals : ∀ x ∈ ((rows.map toChunk).foldl groupInsert []).map
+  have hvals : ∀ x ∈ gs.map
       (fun g => (⟨g.1, g.2.length, (g.2.map (·.data.length)).sum⟩ : ValueInfo)),
       x.numChunks = (rows.filter (·.id == x.chunkID)).length ∧ x.numChunks ≠ 0 ∧
       x.totalSize = ((rows.filter (·.id == x.chunkID)).map (·.data.length)).sum := by
@@ -209,17 +227,18 @@ theorem verboseInfo_rows (relid : Nat) (rows : List Row) (hne : rows ≠ []) :
     intro h0
     apply e2
     rw [List.length_eq_zero_iff.mp h0]; rfl
-  have D := counts_inv ((((rows.map toChunk).foldl groupInsert []).map
+  have D := counts_inv ((gs.map
       (fun g => (⟨g.1, g.2.length, (g.2.map (·.data.length)).sum⟩ : ValueInfo))).map (·.numChunks))
-  refine ⟨rfl, by simp, hsum, ⟨hsum, by simp⟩, by simp, ?_, hvals, ?_, ?_, D.distinct, ?_, ?_⟩
+  refine ⟨rfl, by simp, hsum, ⟨hsum, by simp⟩, by simp [hlen], ?_, ?_, hvals, ?_, ?_, D.distinct, ?_, ?_⟩
   · simp only [List.map_map, Function.comp_def]; exact G.distinct
+  · simp only [List.map_map, Function.comp_def]; rw [List.pairwise_map]; exact hstrict
   · intro r hr
     obtain ⟨g, hg, e⟩ := G.present (toChunk r) (List.mem_map.mpr ⟨r, hr, rfl⟩)
     exact ⟨_, List.mem_map.mpr ⟨g, hg, rfl⟩, e⟩
   · constructor
     · intro x hx
       exact (foldl_max_ge _ 0).2 _ (List.mem_map.mpr ⟨x, hx, rfl⟩)
-    · rcases foldl_max_mem ((((rows.map toChunk).foldl groupInsert []).map
+    · rcases foldl_max_mem ((gs.map
         (fun g => (⟨g.1, g.2.length, (g.2.map (·.data.length)).sum⟩ : ValueInfo))).map (·.numChunks)) 0 with h | h
       · -- the maximum is 0 only if there is no value; but there is a row
         exfalso
@@ -228,8 +247,8 @@ theorem verboseInfo_rows (relid : Nat) (rows : List Row) (hne : rows ≠ []) :
         | cons r rs =>
           obtain ⟨g, hg, e⟩ := G.present (toChunk r) (by simp)
           have hx := hvals _ (List.mem_map.mpr ⟨g, hg, rfl⟩)
-          have hle := (foldl_max_ge ((((((r :: rs).map toChunk).foldl groupInsert []).map
-            (fun g => (⟨g.1, g.2.length, (g.2.map (·.data.length)).sum⟩ : ValueInfo))).map (·.numChunks))) 0).2 _
+          have hle := (foldl_max_ge ((gs.map
+            (fun g => (⟨g.1, g.2.length, (g.2.map (·.data.length)).sum⟩ : ValueInfo))).map (·.numChunks)) 0).2 _
             (List.mem_map.mpr ⟨_, List.mem_map.mpr ⟨g, hg, rfl⟩, rfl⟩)
           rw [h] at hle
           exact hx.2.1 (by omega)
@@ -246,21 +265,89 @@ theorem verboseInfo_rows (relid : Nat) (rows : List Row) (hne : rows ≠ []) :
   · intro x hx
     exact D.present x.numChunks (List.mem_map.mpr ⟨x, hx, rfl⟩)
 
-/-- GetTOASTVerboseInfo on an encoded layout -/
-theorem verboseInfo_layout (relid : Nat) (lay : Layout) (h : lay.WF) :
-    (lay.liveRows = [] → getTOASTVerboseInfo relid (encToastRel lay) = .ok none) ∧
-    (lay.liveRows ≠ [] → ∃ i, getTOASTVerboseInfo relid (encToastRel lay) = .ok (some i) ∧ StatsOK relid lay.liveRows i) := by
+theorem verboseInfo_rows (relid : Nat) (rows : List Row) (hne : rows ≠ []) :
+    StatsOK relid rows (buildInfo relid (rows.map toChunk)) :=
+  verboseInfo_rows_with id (fun l => List.Perm.refl l) relid rows hne
+
+/-- **the report does not depend on the iteration order of the value map** (C11): any two rearrangements give the
+same `VerboseInfo`, field for field, `Values` in the same order -/
+theorem buildInfoWith_order_independent (π π' : GroupOrder) (hπ : ∀ l, (π l).Perm l) (hπ' : ∀ l, (π' l).Perm l)
+    (relid : Nat) (chunks : List Chunk) : buildInfoWith π relid chunks = buildInfoWith π' relid chunks := by
+  unfold buildInfoWith
+  dsimp only
+  have G0 := groups_inv chunks
+  have : keySort (fun g : Nat × List Chunk => g.1) (π (chunks.foldl groupInsert [])) =
+      keySort (fun g : Nat × List Chunk => g.1) (π' (chunks.foldl groupInsert [])) :=
+    KeySort.keySort_perm_invariant _ _ _ ((hπ _).trans (hπ' _).symm) (KeySort.DistinctKeys.perm (hπ _).symm G0.distinct)
+  simp only [this]
+
+/-- GetTOASTVerboseInfo on an encoded layout, for every iteration order of the value map -/
+theorem verboseInfo_layout_with (π : GroupOrder) (hπ : ∀ l, (π l).Perm l) (relid : Nat) (lay : Layout) (h : lay.WF) :
+    (lay.liveRows = [] → getTOASTVerboseInfoWith π relid (encToastRel lay) = .ok none) ∧
+    (lay.liveRows ≠ [] → ∃ i, getTOASTVerboseInfoWith π relid (encToastRel lay) = .ok (some i) ∧ StatsOK relid lay.liveRows i) := by
   constructor
   · intro he
-    unfold getTOASTVerboseInfo
+    unfold getTOASTVerboseInfoWith
     rw [readTOASTTable_layout lay h, he]
     rfl
   · intro hne
-    refine ⟨_, ?_, verboseInfo_rows relid lay.liveRows hne⟩
-    unfold getTOASTVerboseInfo
+    refine ⟨_, ?_, verboseInfo_rows_with π hπ relid lay.liveRows hne⟩
+    unfold getTOASTVerboseInfoWith
     rw [readTOASTTable_layout lay h]
     simp only [ok_bind]
     rw [if_neg (by simp; exact hne)]
     rfl
+
+theorem verboseInfo_layout (relid : Nat) (lay : Layout) (h : lay.WF) :
+    (lay.liveRows = [] → getTOASTVerboseInfo relid (encToastRel lay) = .ok none) ∧
+    (lay.liveRows ≠ [] → ∃ i, getTOASTVerboseInfo relid (encToastRel lay) = .ok (some i) ∧ StatsOK relid lay.liveRows i) :=
+  verboseInfo_layout_with id (fun l => List.Perm.refl l) relid lay h
+
+/-- the whole function is independent of the iteration order, for every byte string -/
+theorem getTOASTVerboseInfoWith_order_independent (π π' : GroupOrder) (hπ : ∀ l, (π l).Perm l) (hπ' : ∀ l, (π' l).Perm l)
+    (relid : Nat) (data : Bytes) : getTOASTVerboseInfoWith π relid data = getTOASTVerboseInfoWith π' relid data := by
+  unfold getTOASTVerboseInfoWith
+  simp only [buildInfoWith_order_independent π π' hπ hπ']
+
+/-- `StatsOK` fixes the list `Values` completely: two reports satisfying it for the same rows list the same entries in
+the same order -/
+theorem StatsOK.values_unique {relid : Nat} {rows : List Row} {i j : VerboseInfo}
+    (hi : StatsOK relid rows i) (hj : StatsOK relid rows j) : i.values = j.values := by
+  -- same set of chunk ids (those occurring in rows), each entry determined by its id, both sorted by id
+  have key : ∀ (a b : VerboseInfo), StatsOK relid rows a → StatsOK relid rows b → ∀ x ∈ a.values, x ∈ b.values := by
+    intro a b ha hb x hx
+    obtain ⟨n1, n0, n2⟩ := ha.valuesTally x hx
+    -- some row carries x's id
+    have hrow : ∃ r ∈ rows, r.id = x.chunkID := by
+      cases hf : rows.filter (·.id == x.chunkID) with
+      | nil => rw [hf] at n1; exact absurd n1 n0
+      | cons r rs =>
+        have hr : r ∈ rows.filter (·.id == x.chunkID) := by rw [hf]; simp
+        obtain ⟨hr1, hr2⟩ := List.mem_filter.mp hr
+        exact ⟨r, hr1, by simpa using hr2⟩
+    obtain ⟨r, hr, hrid⟩ := hrow
+    obtain ⟨y, hy, hyid⟩ := hb.valuesAll r hr
+    obtain ⟨m1, _, m2⟩ := hb.valuesTally y hy
+    have hid : y.chunkID = x.chunkID := by rw [hyid, hrid]
+    have : y = x := by
+      cases x; cases y
+      simp only at hid n1 n2 m1 m2
+      subst hid
+      simp only [ValueInfo.mk.injEq, true_and]
+      exact ⟨by rw [m1, n1], by rw [m2, n2]⟩
+    rw [← this]; exact hy
+  have hsub1 := key i j hi hj
+  have hsub2 := key j i hj hi
+  have hnd : ∀ (a : VerboseInfo), StatsOK relid rows a → a.values.Nodup := by
+    intro a ha
+    have := ha.valuesDistinct
+    rw [List.pairwise_map] at this
+    exact this.imp (fun hne e => hne (by rw [e]))
+  have hp : i.values.Perm j.values :=
+    (List.perm_ext_iff_of_nodup (hnd i hi) (hnd j hj)).mpr (fun x => ⟨hsub1 x, hsub2 x⟩)
+  have s1 := hi.valuesSorted; have s2 := hj.valuesSorted
+  rw [List.pairwise_map] at s1 s2
+  exact KeySort.sorted_perm_eq (·.chunkID) _ _ hp (s1.imp (fun h => Nat.le_of_lt h)) (s2.imp (fun h => Nat.le_of_lt h))
+    (by unfold KeySort.DistinctKeys; exact hi.valuesDistinct)
 
 end PgVerif.Proofs.Toast
